@@ -83,6 +83,7 @@ func runCase(st map[string]interface{}) hx.Event {
 	cok, dok, exists := hx.B(st, "cok"), hx.B(st, "dok"), hx.B(st, "exists")
 
 	f := wfake1.New(true)
+	f.RouteByBody = true
 	tabs := emptyTables()
 	// downstream: the parents of the object exist; the object itself per "exists"
 	f.DBs[DB] = 1
@@ -290,6 +291,7 @@ func (wd *world) deliver(st map[string]interface{}) hx.Event {
 func run(p *hx.Plan) []hx.Event {
 	evs := []hx.Event{}
 	wd := &world{f: wfake1.New(true)}
+	wd.f.RouteByBody = true
 	wd.w = newWriter(wd.f, emptyTables())
 	for _, st := range p.Steps {
 		switch hx.S(st, "op") {
